@@ -19,6 +19,9 @@
      obj.report(...)                        one entry (who, section, error) appended to the report log
      get_to_stan_error(e), ParseError(f'{e.__class__.__name__}: {e}', 1)   the two errors pydoctor makes itself
      obj.system.msg(...)                    no effect on the modelled state (dropped; arguments must be effect-free)
+   Normalisations done by the translator (each keeps the Python meaning): a call of a same-module helper is inlined
+   (SInline); `return <call>` / `o.parsed_docstring = <call>` go through a fresh local; a helper whose body is one
+   expression statement is substituted into a `for` body; message strings bound to locals are dropped.
    All objects share one System (obj.system.parse_errors is THE parse_errors of the state). *)
 From Coq Require Import ZArith NArith List Bool.
 From PydoctorVerif Require Import Base.Sexp Model.DocFlow.
@@ -86,6 +89,9 @@ Inductive stmt : Type :=
 | SSetParsedDoc (o e : expr)                       (* o.parsed_docstring = e *)
 | SCall (f : N) (args : list expr)                 (* f(args) as a statement *)
 | SAssignCall (x : var) (f : N) (args : list expr) (* x = f(args) *)
+| SInline (x : var) (body : stmt)                  (* x = helper(...), the helper's body inlined: its locals are renamed
+                                                      apart, a parameter bound to a caller's local IS that local (same
+                                                      object), `return e` inside the body yields the value of the call *)
 | STry (body : stmt) (hs : handlers)
 with handlers : Type :=
 | HNil
@@ -115,7 +121,7 @@ Inductive cres : Type := CRet (v : value) (st : state) | CRaise (x : exc) (st : 
 
 Inductive xres : Type :=
 | XGo (st : state) (en : env)                  (* fell through *)
-| XRet (v : value) (st : state)                (* return *)
+| XRet (v : value) (st : state) (en : env)     (* return *)
 | XRaise (x : exc) (st : state) (en : env)     (* an exception propagates *)
 | XStuck.                                      (* TypeError / AssertionError / not a call the model knows *)
 
@@ -176,7 +182,7 @@ Section Exec.
       end
     | SIf e a b => if truthy (eval st en e) then exec a st en else exec b st en
     | SAssert e => if truthy (eval st en e) then XGo st en else XStuck
-    | SReturn e => XRet (eval st en e) st
+    | SReturn e => XRet (eval st en e) st en
     | SGetParser x e =>
       match eval st en e with
       | VFmt f => if fmt_known f then XGo st (setv en x (VParser (PFNamed f))) else XRaise XImport st en
@@ -228,6 +234,12 @@ Section Exec.
       end
     | SCall f args => after_call (callee f (map (eval st en) args) st) en None
     | SAssignCall x f args => after_call (callee f (map (eval st en) args) st) en (Some x)
+    | SInline x body =>
+      match exec body st en with
+      | XGo st1 en1 => XGo st1 (setv en1 x VNone)          (* fell off the end of the helper: None *)
+      | XRet v st1 en1 => XGo st1 (setv en1 x v)
+      | r => r
+      end
     | STry body hs =>
       match exec body st en with
       | XRaise x st1 en1 => exec_handlers hs x st1 en1
@@ -253,7 +265,7 @@ Section Exec.
   Definition run_fn (body : stmt) (args : list value) (st : state) : cres :=
     match exec body st (bind_args env0 0 args) with
     | XGo st' _ => CRet VNone st'
-    | XRet v st' => CRet v st'
+    | XRet v st' _ => CRet v st'
     | XRaise x st' _ => CRaise x st'
     | XStuck => CStuck
     end.
